@@ -483,10 +483,13 @@ def spider(case, ctx):
 # --- large arrays (sizes at and around 64 / 128 / 256 / 512) ------------------------------------------------
 
 @st.composite
-def large_geom_case(draw, tier):
+def large_geom_case(draw, tier, mega=False):
     pool = gen.BIG + gen.HUGE
     n = (draw(st.sampled_from(pool)), draw(st.sampled_from(pool + [7, 20])))
     N = (draw(st.sampled_from(pool + [9, 30])), draw(st.sampled_from(pool)))
+    if mega:             # more than 2^20 samples, sizes of no special form; padded a little or cropped a little
+        n = draw(gen.mega_shape())
+        N = (n[0] + draw(st.integers(-40, 40)), n[1] + draw(st.integers(-40, 40)))
     return {"n": list(n), "N": list(N), "depth": draw(st.sampled_from([0, 0, 2])), "seed": draw(st.integers(0, 2**31 - 1)),
             "layout": draw(gen.layouts()), "factor": draw(st.sampled_from([2, 3, 4, 8]))}
 
@@ -503,6 +506,13 @@ def _ref_pad_fast(a, N):
         dst.append(I[ok])
     out[..., dst[0][:, None], dst[1][None, :]] = a[..., src[0][:, None], src[1][None, :]]
     return out
+
+
+@hyp("C20", "mega", lambda tier: large_geom_case(tier, mega=True),
+     "the same on arrays of more than 2^20 samples (1030..3000 rows/columns)", examples=(4, 16), budget_s=(150, 700))
+def mega(case, ctx):
+    ctx.tag("mega")
+    large(case, ctx)
 
 
 @hyp("C20", "large", lambda tier: large_geom_case(tier),
